@@ -22,10 +22,12 @@ Proof.
   destruct ca; try (rewrite Hca by reflexivity); destruct cn, cl; reflexivity.
 Qed.
 
-(* every caller returns the shared outcome (nil exactly when complete; the stored error only when not complete) or
-   its own ctx error, and then the connection has been closed (and its ctx really was cancelled) *)
+(* every caller returns the shared outcome (nil exactly when complete — or the peer has since asked for a TLS 1.2
+   renegotiation, which clears the flag again; the stored error only when not complete) or its own ctx error, and
+   then the connection has been closed (and its ctx really was cancelled) — also when the ctx was already cancelled
+   when the call was made ([init] takes the cancelled flag as a parameter) *)
 Theorem C26_hs_outcome : forall s0 s, start_ok s0 -> reach s0 s -> returned s = true ->
-  exists r, ret s = Some r /\ outcome_ok r (complete s) (hs_err s) (conn_closed s) (cancelled s) = true.
+  exists r, ret s = Some r /\ outcome_ok r (complete s) (hs_err s) (conn_closed s) (cancelled s) (reneg s) = true.
 Proof.
   intros s0 s H0 R Hr. pose proof (inv_reach _ _ (start_inv _ H0) R) as I.
   pose proof (sweep _ outcome_all s) as H. unfold outcome_p in H. rewrite I, Hr in H. cbn [andb implb] in H.
@@ -167,7 +169,33 @@ Example C26_ex_close_ends_stalled_write :
 Proof. vm_compute. reflexivity. Qed.
 (* and the input lock: a caller made to wait for it although the result exists, behind a parked reader, is stuck *)
 Example C26_ex_in_lock_first_deadlocks :
-  can_progress (mkState Mine Parked true false false false false false INone P4 None) = false.
+  can_progress (mkState Mine Parked true false false false false false INone P4 None false) = false.
+Proof. vm_compute. reflexivity. Qed.
+
+(* Renegotiation (ERenegStart: a reader parked in Read gets a HelloRequest; handleRenegotiation takes handshakeMutex and
+   only then clears isHandshakeComplete) is part of the environment of every theorem above: C26_hs_no_deadlock and
+   C26_in_wait_only_without_result therefore say that Handshake/Write callers and a renegotiating reader cannot block
+   each other. Clearing the flag before the mutex is taken is outside the environment, and then the stuck state is reachable: *)
+Example C26_ex_reneg_clears_flag_first_deadlocks :
+  (* reader (input lock held, waits for handshakeMutex) has cleared complete; the caller took the mutex, found no result, wants the input lock *)
+  can_progress (mkState Mine Parked false false false false false false INone P4 None true) = false.
+Proof. vm_compute. reflexivity. Qed.
+Example C26_ex_reneg_run :
+  match run (init false Free Free true false false false) [LC; EReadPark; ERenegStart] with
+  | Some s => returned s && negb (complete s) && reneg s && match ret s with Some RNil => true | _ => false end | None => false end = true.
+Proof. vm_compute. reflexivity. Qed.
+Example C26_ex_reneg_caller_waits_then_gets_outcome :
+  match run (init false Free Free false false false false)
+            [EAcquire; EInAcquire; EBodyOk; EInRelease; ERelease; EReadPark; ERenegStart; LC; LC; EBodyErr; EInRelease; ERelease; LC; LC; LC; LC] with
+  | Some s => returned s && match ret s with Some RHsErr => true | _ => false end | None => false end = true.
+Proof. vm_compute. reflexivity. Qed.
+(* a ctx error handed back without the interrupter having closed the connection is not an allowed outcome *)
+Example C26_ex_ctx_error_needs_close : outcome_ok RCtx false false false true false = false.
+Proof. reflexivity. Qed.
+(* a ctx already cancelled at call time: the caller gets its ctx error only through the interrupter, which closes the conn *)
+Example C26_ex_precancelled :
+  match run (init true Free Free false false false true) [LC; LC; LIFire; LC; LC; LC; LC; LBodyErr; LC; LC; LC; LC] with
+  | Some s => returned s && conn_closed s && match ret s with Some RCtx => true | _ => false end | None => false end = true.
 Proof. vm_compute. reflexivity. Qed.
 
 (* ---- non-vacuity ---- *)
